@@ -3,3 +3,8 @@ check("C20", "exploration",
       "Trusted: Go's time package for constructing inputs (cross-checked against the independent calendar on every day of the range), math/big.",
       "runtime monitoring: exhaustive/sampled execution of the conversions against an independent reference oracle",
       "DESIGN.md 3/C20")
+check("C01", "exploration",
+      "Encodes generated blocks with the real library (typed catalogue of user-facing constructors, boxed random compositions to depth 3, dictionary-size and string-length boundaries, 6 revisions, default and purego builds) through every encoder path, decodes the bytes with an independent reference codec and with the library (typed, boxed, inferred targets) and compares names, types, row counts and values with the model; also byte-independence from the output buffer. Held = no disagreement on the generated cases.",
+      "Trusted: the independent reference codec harness/internal/ref (validated by agreeing with the library on thousands of shapes; a disagreement is inspected by hand before being believed), Go reflection for reading typed columns.",
+      "runtime monitoring: generated round-trip executions checked against an independent reference decoder (differential oracle), two builds",
+      "DESIGN.md 3/C01")
